@@ -441,7 +441,18 @@ fn serve_clean<F: FnMut(&[&str]) -> String>(mut f: F) {
 
 fn main() {
     quiet_panics();
-    serve_clean(|t| match t[0] {
+    serve_clean(|t| {
+        // the trace of back-end calls is thread-local and stays enabled after a T request: empty it before
+        // every request so that its invocation bound counts the calls of ONE request only
+        if verif_trace::enabled() {
+            let _ = verif_trace::take();
+        }
+        serve_one(t)
+    });
+}
+
+fn serve_one(t: &[&str]) -> String {
+    match t[0] {
         "M" => match t.get(1).and_then(|x| x.parse::<usize>().ok()) {
             Some(n) => f_max(n),
             None => "BADREQ".to_string(),
@@ -457,5 +468,5 @@ fn main() {
         "C" => f_oneshot(t),
         "T" => f_stream(t),
         _ => "BADREQ".to_string(),
-    });
+    }
 }
